@@ -29,6 +29,25 @@ class HarnessError(Exception):
     pass
 
 
+class ConcreteViolation(Exception):
+    """the concrete property check failed on the REAL code for an input of the validation sweep: a genuine violation with a
+    replayable input (found by the sampling part of the encoding validation, not by the solver)"""
+
+    def __init__(self, kind, inputs, fails):
+        super().__init__(f'{kind}: {fails[:2]}')
+        self.kind, self.inputs, self.fails = kind, inputs, fails
+
+
+def concrete_check(kind, inputs):
+    """run a concrete property check on the real code; raise ConcreteViolation (with JSON-able inputs) if it fails"""
+    from harness import concrete
+    from .concretize import evaluate
+    enc = evaluate(inputs, {})
+    fails = concrete.CHECKS[kind](concrete.decode(json.loads(json.dumps(enc))))
+    if fails:
+        raise ConcreteViolation(kind, enc, fails)
+
+
 def _dump_on_usr1():
     try:
         import faulthandler, signal
@@ -150,8 +169,18 @@ def main(modname):
     os.environ.setdefault('VERIF_XCHECK', '40' if args.tier == 'thorough' else '6')     # cvc5 re-decides this many VC queries per worker
     # 1. Serval-style validation of the encoding: concrete inputs through the shimmed path vs plain NumPy
     val = {}
+    sweep_violations = []
     try:
         val = H.validate(seed, args.tier) or {}
+    except ConcreteViolation as cv:
+        path = write_replay(pid, cv.kind, cv.inputs,
+                            dict(found_by='concrete validation sweep on the real code (sampling), not by the solver', detail=cv.fails[:3]))
+        rep, out = replay_file(path)
+        if rep:
+            sweep_violations.append((f'sweep:{cv.kind}', path, out, dict(kind=cv.kind)))
+        else:
+            problems.append(f'validation sweep reported {cv.fails[:2]} but the replay did not reproduce it')
+        val = dict(validation_sweep='violation found on the real code', detail=cv.fails[:3])
     except Exception as e:
         problems.append(f'encoding validation failed: {type(e).__name__}: {e}')
         traceback.print_exc()
@@ -165,7 +194,7 @@ def main(modname):
         print(e.get('tb', ''), file=sys.stderr)
     # 3. candidates -> replay on the real code
     known = [k for k in load_known_findings() if k['property'] == pid]
-    violations = []
+    violations = list(sweep_violations)
     known_hits = []
     unreproduced = []
     seen_sig = {}
